@@ -18,6 +18,8 @@ func propC07(c *Ctx) {
 	defer func() {
 		rcf := c.Rule("copy-fields", "Copy of an error value builds a new value with every field, the wrapped *Error copied (script code that derives an error with err.New must not rewrite the process-wide builtin error values)", 2)
 		ruleCopyFields(c, rcf, "Error", "RuntimeError")
+		rpr := c.Rule("pool-reset", "every field of a struct recycled through a sync.Pool is reset on every path before the value is pooled or before it is handed out again: no call inherits state from an unrelated earlier one", 1)
+		rulePoolReset(c, rpr, nil)
 		if vf := getVMFacts(c, rcf); vf != nil {
 			rfci := c.Rule("frame-claim-init", "the call routine stores every field of a call frame it claims before it returns successfully: no activation starts with state left by an earlier run", 3)
 			ruleFrameClaimInit(c, rfci, vf)
@@ -34,6 +36,8 @@ func propC07(c *Ctx) {
 	rf := c.Rule("frame0-reset", "every field of the call frame that run-time code reads is stored for frame 0 on every path of Run's prologue", 3)
 	ruleFrame0Reset(c, rf, vf)
 
+	rlf := c.Rule("lock-first", "a method of VM that takes the VM's mutex writes the VM's state only after the Lock call: nothing is reset while another run may still own the VM", 3)
+	ruleLockFirst(c, rlf, vf)
 	rdu := c.Rule("defer-unlock", "Run, Clear, SetBytecode and friends release the VM mutex by defer: after a panic escaped Run (recovery off) the VM can still be cleared and re-used", 1)
 	ruleDeferUnlock(c, rdu, l.RepoFuncs(func(pp string) bool { return pp == modPath }))
 
